@@ -3210,7 +3210,11 @@ fn rewrite_where_clause(
     // FIXME: if indent_style != Visual, then the budgets below might
     // be out by a char or two.
 
-    let budget = context.config.max_width() - offset.width();
+    let budget = context
+        .config
+        .max_width()
+        .checked_sub(offset.width())
+        .max_width_error(context.config.max_width(), where_span)?;
     let span_start = predicates[0].span().lo();
     // If we don't have the start of the next span, then use the end of the
     // predicates, but that means we miss comments.
